@@ -12,7 +12,7 @@ Separate Extraction
   Storage.st_set Storage.st_get Storage.st_delete Storage.st_keys Storage.entity_key Storage.db_load
   Storage.db_list Storage.fs_get Storage.multi_ops Storage.apply_ops Storage.set_ops Storage.sanitize
   Framing.new_server_session Framing.new_client_session Framing.send_all Framing.recv_all
-  Framing.decrypt_stream Framing.decrypt_segments Framing.cc_open Framing.cc_seal Framing.packets_pinned
+  Framing.decrypt_stream Framing.decrypt_segments Framing.cc_open Framing.cc_seal Framing.spec_wire_from Framing.packets_pinned
   ConnRead.run_reads ConnRead.init_conn
   ConnWrite.wrun HBytes.chunks
   Charac.cstep Charac.cstep2 Charac.well_typed Z.opp Z.div Z.modulo
